@@ -31,7 +31,7 @@ def build_members(seed: int, n: int, corrupt: int | None, with_noise: bool):
     from vlib.gen import docs, mutate
     rng = random.Random(f"c10:{seed}")
     members, eligible = [], []
-    dirs = ["", "a/", "a/b/", "docs v2/", "ünï/"]
+    dirs = ["", "a/", "a/b/", "docs v2/", "ünï/", "報告/", "Q1最终/", "x\u0100y/", "a\u3000b/", "\U0001F600/"]
     used = set()
     corrupted = None
     for i in range(n):
@@ -39,14 +39,17 @@ def build_members(seed: int, n: int, corrupt: int | None, with_noise: bool):
         data, _ = docs.build(fmt, seed * 100 + i)
         ext = docs.BUILDERS[fmt][3]
         d = rng.choice(dirs)
-        base = rng.choice(["report", "data", "notes", "Überblick", "same"])   # duplicate basenames in different folders are intended
+        # duplicate basenames in different folders are intended; names mix Latin-1, U+xx00 code units (0x0100, 0x4E00, 0x3000), astral and combining characters
+        base = rng.choice(["report", "data", "notes", "Überblick", "same", "v1\u4e00", "Q1最终", "x\u0100", "é\u0300", "n\u3000m", "\U0001F4C4doc", "ß\u0200"])
         name = f"{d}{base}{i if rng.random() < 0.6 else ''}{ext}"
         if name in used:
             name = f"{d}{base}_{i}{ext}"
         used.add(name)
         if corrupt is not None and i == corrupt:
             r2 = random.Random(f"c10c:{seed}")
-            data = mutate.byte_mutate(data, r2.choice(["truncate", "bitflip", "zero", "head_only"]), r2)
+            op = r2.choice(["truncate", "bitflip", "zero", "head_only", "garbage", "garbage"])
+            # "garbage": bytes the member's own extractor is certain to reject (the failure must stay contained)
+            data = bytes(r2.randrange(256) for _ in range(200)) if op == "garbage" else mutate.byte_mutate(data, op, r2)
             corrupted = name
         members.append({"name": name, "data": data, "type": "file"})
         eligible.append((name, data))
@@ -156,11 +159,11 @@ def layout_class(layout: str) -> str:
 def gen_cases(run):
     rng = run.rng
     cid = 0
-    reps = run.n(8, 150)
+    reps = run.n(30, 300)
     for layout in archives.ALL_LAYOUTS:
         for r in range(reps):
             n = rng.choice([0, 1, 1, 2, 3, 4, 6, 10])
-            corrupt = rng.randrange(n) if (n >= 2 and r % 3 == 2) else None
+            corrupt = rng.randrange(n) if (n >= 2 and r % 2 == 1) else None
             cid += 1
             yield {"id": cid, "layout": layout, "seed": run.seed * 10000 + cid, "n": n, "corrupt": corrupt, "noise": r % 4 != 0}
 
